@@ -183,8 +183,7 @@ func (matrix *SparseInt64Matrix) SLICE(rfrom, rto, cfrom, cto int) *SparseInt64M
   return &m
 }
 func (matrix *SparseInt64Matrix) AsSparseInt64Vector() *SparseInt64Vector {
-  if matrix.cols < matrix.colMax - matrix.colOffset ||
-    (matrix.rows < matrix.rowMax - matrix.rowOffset) {
+  if matrix.rows != matrix.rowMax || matrix.cols != matrix.colMax {
     n, m := matrix.Dims()
     v := nilSparseInt64Vector(n*m)
     for it := matrix.ConstIterator(); it.Ok(); it.Next() {
